@@ -39,6 +39,21 @@ pub fn run(ctx: &Ctx) -> i32 {
             let ntn = rng.below(4);
             ast.tp = (0..ntp).map(|i| mk(&mut rng, "P", i)).collect();
             ast.tn = (0..ntn).map(|i| mk(&mut rng, "N", i)).collect();
+            // sometimes the identical document sits in both lists, or twice in one list
+            if rng.chance(25) && !ast.tp.is_empty() {
+                let d = ast.tp[rng.below(ast.tp.len())].clone();
+                ast.tn.push(d);
+            }
+            if rng.chance(10) && !ast.tn.is_empty() {
+                let d = ast.tn[0].clone();
+                ast.tn.push(d);
+            }
+            // and sometimes many examples (errors must still name each one)
+            if rng.chance(8) {
+                for i in 0..8 {
+                    ast.tn.push(mk(&mut rng, "M", i));
+                }
+            }
             let mut v = ast.to_yaml_value();
             // malformed entries (separate stream)
             let mut malformed: Vec<(&str, usize)> = vec![];
@@ -125,7 +140,9 @@ pub fn run(ctx: &Ctx) -> i32 {
                                 }
                             }
                             for p in &passing {
-                                if !p.is_empty() && e.contains(p.as_str()) {
+                                // (an identical document may sit in both lists: its marker is then
+                                // rightly in the text when the other copy fails)
+                                if !p.is_empty() && !failing.contains(p) && e.contains(p.as_str()) {
                                     rep.violation("wrongly-named", "c13-wrongly-named", &format!("validation error names example {} which behaves correctly", p), case.clone());
                                     break;
                                 }
